@@ -5,6 +5,7 @@ import (
 	"errors"
 	"fmt"
 	"reflect"
+	"sort"
 	"strings"
 
 	"github.com/graphql-go/graphql/gqlerrors"
@@ -186,8 +187,23 @@ func dethunkMapWithBreadthFirstTraversal(finalResults map[string]interface{}) {
 	}
 }
 
+// sortedKeys returns the keys of a response map in a fixed order, so that
+// deferred results are forced (and their errors reported) in the same order
+// on every execution of a request.
+func sortedKeys(m map[string]interface{}) []string {
+	keys := make([]string, 0, len(m))
+	for k := range m {
+		keys = append(keys, k)
+	}
+	if len(keys) > 1 {
+		sort.Strings(keys)
+	}
+	return keys
+}
+
 func dethunkMapBreadthFirst(m map[string]interface{}, dethunkQueue *dethunkQueue) {
-	for k, v := range m {
+	for _, k := range sortedKeys(m) {
+		v := m[k]
 		if f, ok := v.(func() interface{}); ok {
 			m[k] = f()
 		}
@@ -219,7 +235,8 @@ func dethunkListBreadthFirst(list []interface{}, dethunkQueue *dethunkQueue) {
 // to conform to the graphql-js reference implementation, which requires serial (depth-first)
 // implementations for mutation selects.
 func dethunkMapDepthFirst(m map[string]interface{}) {
-	for k, v := range m {
+	for _, k := range sortedKeys(m) {
+		v := m[k]
 		if f, ok := v.(func() interface{}); ok {
 			m[k] = f()
 		}
